@@ -140,7 +140,7 @@ JUMP_NAMES = (
 
 
 # Regrouping opcodes
-STORE_NAMES = python3_10.STORE_SUBSCR_NAMES + BINARY_SLICE_NAMES + python3_10.STORE_ATTR_NAMES
+STORE_NAMES = python3_10.STORE_SUBSCR_NAMES + STORE_SLICE_NAMES + python3_10.STORE_ATTR_NAMES
 
 ACCESS_NAMES = python3_11.IMPORT_FROM_NAMES + LOAD_ATTR_NAMES + python3_10.DELETE_ATTR_NAMES
 
